@@ -4,6 +4,7 @@ import SJ.Properties.C01
 import SJ.Properties.C10
 import SJ.Properties.C13
 import SJ.Properties.C14
+import SJ.Proofs.SourceLevelA
 import SJ.Proofs.SourceLevelB
 set_option autoImplicit false
 set_option linter.unusedVariables false
@@ -86,8 +87,8 @@ theorem marshal_root_safe (pj : PJ) (hb : BufOK pj) (dst : Bytes) (F : Nat) (hF 
     `nil`, or a non-nil error; it does not panic, and leaves the tape alone.  (The tape may denote no document at all: the
     statement is about memory safety and termination of the reader, not about what it prints.)
     Discharged: the marshal tie's view premise (`lim = len(tape)`), `cur < 2^63` (`cur = 0`), `0 ≤ addNext`, non-divergence
-    of the model (from `C19_result_walkable`'s marshal clause, `WalkSafe.marshalBuf_safe`), and the length of the returned
-    tape.  Remaining: `msg.size < 2^63` (`BufOK`: a Go slice length is an `int`; the tape does not bound the message) and the
+    of the model (`WalkSafe.marshalBuf_safe`, the lemma behind `C19_result_walkable`'s marshal clause, here for every `dst`
+    and not only `nil`), and the length of the returned tape.  Remaining: `msg.size < 2^63` (`BufOK`: a Go slice length is an `int`; the tape does not bound the message) and the
     interpreter's loop budget `3·len(tape) + 25`.  Not composed: the `owalk` / `Iter.Interface` clauses of
     `C19_result_walkable` — there is no source tie for `Iter.Interface` (it is not among the translated functions). -/
 theorem C19_source_result_marshal (init : Array UInt64) (tags values : Bytes) (hsz : init.size < 2^56) (fuel : Nat)
@@ -113,6 +114,130 @@ theorem C19_source_result_marshal (init : Array UInt64) (tags values : Bytes) (h
 end C19
 
 /-! ## C04 — `parseString` -/
+
+section NoClose
+open SJ.Tables SJ.Escape SJ.ParseDefs SJ.StrLex
+
+/-! Without a closing quotation mark the scalar decoder fails (not covered by `C04_decode_rejects`, which leaves this case
+    to stage 1): strong induction over the text with the one-iteration lemmas of `Proofs/StrLex`. -/
+
+theorem failNow_nil : FailNow [] := by
+  intro a start lim i f out hd
+  have hi : a.size ≤ i := by
+    have := List.drop_eq_nil_iff.mp hd
+    simpa using this
+  have g0 : a.getD i 0 = 0 := by
+    simp only [Array.getD]
+    rw [dif_neg (by omega)]
+  apply go_of_body_none
+  intro h0
+  unfold goBody
+  simp [g0, h0, hi]
+
+theorem failNow_bs : FailNow [92] := by
+  intro a start lim i f out hd
+  have g0 : a.getD i 0 = 92 := by simpa using getD_of_drop hd 0
+  have g1 : a.getD (i + 1) 0 = 0 := by simpa using getD_of_drop hd 1
+  apply go_of_body_none
+  intro h0
+  unfold goBody
+  have hm : escapeSpec 0 = 0 := by decide
+  simp only [g0, g1, h0, escapeMap_spec, hm, if_false]
+  rfl
+
+theorem map_add_none {o : Option Nat} {k : Nat} (h : o.map (· + k) = none) : o = none := by
+  cases o with
+  | none => rfl
+  | some d => cases h
+
+theorem noClose_mfail : ∀ (n : Nat) (s : List UInt8), s.length ≤ n → closeQ s = none → MFail s := by
+  intro n
+  induction n using Nat.strongRecOn with
+  | _ n ih =>
+    intro s hn hq
+    match s, hn, hq with
+    | [], _, _ => exact MFail.of_failNow failNow_nil
+    | c :: r, hn, hq =>
+      rw [closeQ.eq_def] at hq
+      simp only at hq
+      cases h1 : (c == 34) with
+      | true => rw [h1] at hq; simp at hq
+      | false =>
+        rw [h1] at hq
+        simp only [Bool.false_eq_true, if_false] at hq
+        cases h2 : (c == 92) with
+        | false =>
+          rw [h2] at hq
+          simp only [Bool.false_eq_true, if_false] at hq
+          have hr := map_add_none hq
+          simp only [List.length_cons] at hn
+          exact MFail.of_wstep (step_plain h1 h2).w (ih r.length (by omega) r (Nat.le_refl _) hr)
+        | true =>
+          rw [h2] at hq
+          simp only [if_true] at hq
+          have hc : c = 92 := by simpa using h2
+          subst hc
+          match r, hn, hq with
+          | [], _, _ => exact MFail.of_failNow failNow_bs
+          | e :: r', hn, hq =>
+            simp only at hq
+            have hr' := map_add_none hq
+            simp only [List.length_cons] at hn
+            cases he : (e == 117) with
+            | false =>
+              by_cases hm : escapeSpec e = 0
+              · exact MFail.of_failNow (fail_esc he hm)
+              · exact MFail.of_wstep (step_esc he hm).w (ih r'.length (by omega) r' (Nat.le_refl _) hr')
+            | true =>
+              have hec : e = 117 := by simpa using he
+              subst hec
+              cases hh4 : Spec.hex4 r' with
+              | none => exact MFail.of_failNow (fail_u_badhex hh4)
+              | some p =>
+                obtain ⟨cu, t⟩ := p
+                have hsh := Shift.u hh4
+                have hlt := hsh.length_lt (by decide)
+                simp only [List.length_cons] at hlt
+                have hqs : closeQ (92 :: 117 :: r') = none := by
+                  rw [closeQ.eq_def]; simp only; simp [hr']
+                have hqt : closeQ t = none := by
+                  have := hsh.cq; rw [hqs] at this; exact map_add_none this.symm
+                by_cases hh : 0xD800 ≤ cu ∧ cu < 0xDC00
+                · by_cases ht : t.getD 0 0 ≠ 92 ∨ t.getD 1 0 ≠ 117
+                  · exact MFail.of_failNow (fail_u_pair_nobs hh4 hh ht)
+                  · have ht0 : t.getD 0 0 = 92 := Classical.byContradiction fun h => ht (Or.inl h)
+                    have ht1 : t.getD 1 0 = 117 := Classical.byContradiction fun h => ht (Or.inr h)
+                    match t, ht0, ht1, hh4, hsh, hlt, hqt with
+                    | [], ht0, _, _, _, _, _ => simp at ht0
+                    | [_], _, ht1, _, _, _, _ => simp at ht1
+                    | x :: y :: r3, ht0, ht1, hh4, hsh, hlt, hqt =>
+                      have hx : x = 92 := by simpa using ht0
+                      have hy : y = 117 := by simpa using ht1
+                      subst hx hy
+                      cases hh5 : Spec.hex4 r3 with
+                      | none => exact MFail.of_failNow (fail_u_pair_badhex hh4 hh hh5)
+                      | some p2 =>
+                        obtain ⟨lo, r4⟩ := p2
+                        have hsh2 := Shift.u hh5
+                        have hlt2 := hsh2.length_lt (by decide)
+                        simp only [List.length_cons] at hlt2 hlt
+                        have hq4 : closeQ r4 = none := by
+                          have := hsh2.cq; rw [hqt] at this; exact map_add_none this.symm
+                        have hdr := (hsh.trans hsh2).dr
+                        have := ih r4.length (by omega) r4 (Nat.le_refl _) hq4
+                        rw [hdr] at this
+                        exact MFail.of_wstep (wstep_u_pair hh4 hh hh5) this
+                · obtain ⟨bs, _, hst⟩ := step_u_single hh4 hh
+                  have := ih t.length (by omega) t (Nat.le_refl _) hqt
+                  rw [hsh.dr] at this
+                  exact MFail.of_wstep hst.w this
+
+/-- without a closing quotation mark the decoder fails, wherever the text lies and whatever the limit -/
+theorem decodeString_noClose (a : Bytes) (start lim : Nat) (h : closeQ (a.toList.drop start) = none) :
+    decodeString a start lim = none :=
+  noClose_mfail _ _ (Nat.le_refl _) h a start lim start (a.size + 64) #[] rfl
+
+end NoClose
 
 section C04
 open SJ.ParseDefs SJ.GoStage2 SJ.Properties.C04 SJ.Properties.C01
@@ -188,37 +313,523 @@ theorem C04_source_parseString_exact (m : M) (cfg : Cfg) (buf : Bytes) (idx max 
 
 /-- **… and what the production rejects is not decoded, source level.**  If the RFC string production rejects the text `s`
     after the opening quotation mark at `idx` (bad or truncated escape, raw control character, no closing quote), then
-    * there is no closing quotation mark at all (`closeQ s = none`: stage 1 never pairs this quote, so stage 2 is not
-      reached with it — `LexIface.strOpen`; what `parseString` itself would do is not stated by `C04_decode_rejects`), or
     * a raw control character precedes the closing quotation mark (stage 1 flags it; `parseString` does not look), or
     * running the regenerated `parseString` returns `false`, for every `maxStringSize`, every capacity, either setting of
       `copyStrings`, and has changed nothing: same tape, same string buffer, same `Message`.
+    The case "no closing quotation mark at all", which `C04_decode_rejects` leaves open (stage 1 never pairs such a quote), is
+    closed here: the decoder fails then too (`decodeString_noClose`), so `parseString` returns `false`.
     Remaining premises: the tie's `idx ≤ len(buf)` and `idx < 2^63`; `s.length < sfuel` is the property's (the
     specification is total by fuel). -/
 theorem C04_source_parseString_rejects (m : M) (cfg : Cfg) (buf : Bytes) (idx : UInt64) (fuel sfuel : Nat)
     (s : List UInt8) (hs : buf.toList.drop (idx.toNat + 1) = s) (hidx : idx.toNat ≤ buf.size) (h63 : idx.toNat < 2^63)
     (hsf : s.length < sfuel) (h : Spec.stringBody sfuel s [] false = .rej) :
-    closeQ s = none ∨ ∃ d, closeQ s = some d ∧
-      ((∃ j, j < d ∧ s.getD j 0 < 0x20) ∨
-       ∀ (max : UInt64) (cap : Int),
-         ∃ e', runFun goFuns goparseString (fuel + 1) ⟨psEnv m buf idx max cfg.copyStrings cap, m.tape⟩ =
-             .ret ⟨e', m.tape⟩ [.bool false] ∧
-           e'.get "Strings.B" = some (.bytes m.strings) ∧ e'.get "pj.lim" = some (.int m.tape.size) ∧
-           e'.get "Message" = some (.bytes buf)) := by
+    (∃ d, closeQ s = some d ∧ ∃ j, j < d ∧ s.getD j 0 < 0x20) ∨
+    ∀ (max : UInt64) (cap : Int),
+      ∃ e', runFun goFuns goparseString (fuel + 1) ⟨psEnv m buf idx max cfg.copyStrings cap, m.tape⟩ =
+          .ret ⟨e', m.tape⟩ [.bool false] ∧
+        e'.get "Strings.B" = some (.bytes m.strings) ∧ e'.get "pj.lim" = some (.int m.tape.size) ∧
+        e'.get "Message" = some (.bytes buf) := by
+  have key : (∀ max : UInt64, decodeString buf (idx.toNat + 1) max.toNat = none) →
+      ∀ (max : UInt64) (cap : Int),
+        ∃ e', runFun goFuns goparseString (fuel + 1) ⟨psEnv m buf idx max cfg.copyStrings cap, m.tape⟩ =
+            .ret ⟨e', m.tape⟩ [.bool false] ∧
+          e'.get "Strings.B" = some (.bytes m.strings) ∧ e'.get "pj.lim" = some (.int m.tape.size) ∧
+          e'.get "Message" = some (.bytes buf) := by
+    intro hnone max cap
+    have hd := hnone max
+    have htie := (C01_stage2_actions_follow_source m cfg buf fuel).2.2.2.2.2.2.2.2.1 idx max cap hidx h63
+    unfold M.parseString at htie
+    rw [hd] at htie
+    simp only [] at htie
+    obtain ⟨e', hrun, hlimv, hstr, hmsg⟩ := htie
+    exact ⟨e', hrun, hstr, hlimv, hmsg⟩
   rcases C04_decode_rejects sfuel s hsf h with hn | ⟨d, hcq, hb⟩
-  · exact Or.inl hn
-  · refine Or.inr ⟨d, hcq, ?_⟩
-    rcases hb with hc | hnone
-    · exact Or.inl hc
-    · refine Or.inr fun max cap => ?_
-      have hd := hnone buf (idx.toNat + 1) max.toNat hs
-      have htie := (C01_stage2_actions_follow_source m cfg buf fuel).2.2.2.2.2.2.2.2.1 idx max cap hidx h63
-      unfold M.parseString at htie
-      rw [hd] at htie
-      simp only [] at htie
-      obtain ⟨e', hrun, hlimv, hstr, hmsg⟩ := htie
-      exact ⟨e', hrun, hstr, hlimv, hmsg⟩
+  · exact Or.inr (key fun max => decodeString_noClose buf (idx.toNat + 1) max.toNat (by rw [hs]; exact hn))
+  · rcases hb with hc | hnone
+    · exact Or.inl ⟨d, hcq, hc⟩
+    · exact Or.inr (key fun max => hnone buf (idx.toNat + 1) max.toNat hs)
 
 end C04
+
+/-! ## C13 — histories of `Set*` calls, run on the source -/
+
+section SetNullTie
+attribute [local simp] exec exec1 execCases evalE evalEs Env.get Env.set isOneOf binop convert ofE copyFields bindParams
+  iterFields runFun tblLookup
+
+/-- the tie of `SetNull` on a tag that is not a container's: its one- and two-word clauses and the default clause do not
+    loop, so any fuel ≥ 1 will do (the tie `GoSet.setNull_sim` asks for `cur - off + 2` uniformly; on a string node `cur` is
+    an offset into the string buffer).  Proved like `GoSet.setNull_sim`, by symbolic execution of the regenerated tree. -/
+theorem setNull_sim_noloop (pj : PJ) (i : Iter) (fuel : Nat) (hl : i.lim ≤ pj.tape.size)
+    (hnc : inCase (caseOf swSetNull 2) i.t = false) (hf : 1 ≤ fuel) :
+    SimSet pj i (runFun goFuns goIter_SetNull fuel
+        { env := envOf "i" i ++ [("Strings.B", .bytes pj.strings)], tape := pj.tape })
+      (i.setNull pj) := by
+  have hc : swSetNull = [[[116, 102, 110], [34, 100, 108, 117], [123, 91, 114], [256]]] := rfl
+  obtain ⟨f, rfl⟩ : ∃ f, fuel = f + 1 := ⟨fuel - 1, by omega⟩
+  simp only [goIter_SetNull, envOf, Iter.setNull, hc, caseOf, caseOfSw, inCase, SimSet] at *
+  simp
+  simp at hnc
+  simp only [← UInt8.toNat_inj, UInt8.reduceToNat, @eq_comm Nat _ i.t.toNat] at *
+  by_cases ht1 : (i.t.toNat = 116 ∨ i.t.toNat = 102 ∨ i.t.toNat = 110)
+  · simp only [ht1, if_true]
+    by_cases h0 : i.off = 0
+    · simp [h0]
+    · by_cases h1 : i.off ≤ i.lim
+      · have h3 : i.off - 1 < pj.tape.size := by omega
+        have h4 : (1:Int) ≤ i.off ∧ (i.off:Int) - 1 < i.lim ∧ i.off - 1 < pj.tape.size := by omega
+        rw [wrV_ok _ _ _ _ (by omega) h3]
+        simp [h0, h3, h4, mkWord, iterAt, tagNull]
+      · have h4 : ¬ ((1:Int) ≤ i.off ∧ (i.off:Int) - 1 < i.lim ∧ i.off - 1 < pj.tape.size) := by omega
+        rw [wrV_panic _ _ _ _ (Or.inl (by omega))]
+        simp [h0, h4]
+  · by_cases ht2 : (i.t.toNat = 34 ∨ i.t.toNat = 100 ∨ i.t.toNat = 108 ∨ i.t.toNat = 117)
+    · simp only [ht1, if_false]
+      two_word ht2
+    · have ht3 : ¬ (i.t.toNat = 123 ∨ i.t.toNat = 91 ∨ i.t.toNat = 114) := by omega
+      simp [ht1, ht2, ht3, iterAt]
+
+end SetNullTie
+
+/-- the tie of `SetNull` with the fuel each clause needs: one unit, and `cur - off + 2` on a container (the NOP-fill loop) -/
+theorem setNull_sim_fuel (pj : PJ) (i : Iter) (fuel : Nat) (hl : i.lim ≤ pj.tape.size)
+    (hcur : i.t = tagObjectStart ∨ i.t = tagArrayStart ∨ i.t = tagRoot → i.cur.toNat < 2^63) (hf1 : 1 ≤ fuel)
+    (hf : inCase (caseOf swSetNull 2) i.t = true → i.cur.toNat - i.off + 2 ≤ fuel) :
+    SimSet pj i (runFun goFuns goIter_SetNull fuel
+        { env := envOf "i" i ++ [("Strings.B", .bytes pj.strings)], tape := pj.tape })
+      (i.setNull pj) := by
+  cases h2 : inCase (caseOf swSetNull 2) i.t with
+  | false => exact setNull_sim_noloop pj i fuel hl h2 hf1
+  | true => exact (SJ.Properties.C13.C13_set_follows_source pj i hl fuel).2.2.2.2.2 hcur (hf h2)
+
+section C13hist
+open SJ.EditHistory SJ.WalkLayout SJ.Properties.C13
+
+/-- **One `Set*` call, run on the source.**  The store is the one the tie expects: the receiver is the iterator standing on
+    tape position `op.pos` (`iterOn`: one past the word, holding its tag and payload, the view being the whole tape — the
+    positioning the history theorems use), the shared string buffer, the argument; the tree is the regenerated
+    `goIter_Set…`. -/
+def srcRun (fuel : Nat) (pj : PJ) : EOp → Out
+  | .setInt q z => runFun goFuns goIter_SetInt fuel
+      { env := envOf "i" (iterOn pj q) ++ [("Strings.B", .bytes pj.strings), ("v", .int z)], tape := pj.tape }
+  | .setUInt q w => runFun goFuns goIter_SetUInt fuel
+      { env := envOf "i" (iterOn pj q) ++ [("Strings.B", .bytes pj.strings), ("v", .u64 w)], tape := pj.tape }
+  | .setFloat q b => runFun goFuns goIter_SetFloat fuel
+      { env := envOf "i" (iterOn pj q) ++ [("Strings.B", .bytes pj.strings), ("v", .u64 b)], tape := pj.tape }
+  | .setBool q b => runFun goFuns goIter_SetBool fuel
+      { env := envOf "i" (iterOn pj q) ++ [("Strings.B", .bytes pj.strings), ("v", .bool b)], tape := pj.tape }
+  | .setNull q => runFun goFuns goIter_SetNull fuel
+      { env := envOf "i" (iterOn pj q) ++ [("Strings.B", .bytes pj.strings)], tape := pj.tape }
+  | .setString q s => runFun goFuns goIter_SetStringBytes fuel
+      { env := envOf "i" (iterOn pj q) ++ [("Strings.B", .bytes pj.strings), ("v", .bytes s)], tape := pj.tape }
+
+/-- what the caller has after a call that returned `nil`: the tape and the string buffer the run left (`Message` is not in
+    the store of these functions: it is not theirs to change) -/
+def retNil (pj : PJ) : Out → Option PJ
+  | .ret s [.bool false] =>
+    match s.env.get "Strings.B" with
+    | some (.bytes strs) => some { tape := s.tape, strings := strs, msg := pj.msg }
+    | _ => none
+  | _ => none
+
+/-- one call; `none` unless it returned `nil` -/
+def srcStep (fuel : Nat) (pj : PJ) (op : EOp) : Option PJ := retNil pj (srcRun fuel pj op)
+
+/-- **A sequence of `Set*` calls, run on the source**: each call is positioned on, and run against, the tape and string
+    buffer the previous call returned; the run stops (`none`) at the first call that does not return `nil`. -/
+def srcOps (fuel : Nat) : PJ → List EOp → Option PJ
+  | pj, [] => some pj
+  | pj, op :: r =>
+    match srcStep fuel pj op with
+    | some pj' => srcOps fuel pj' r
+    | none => none
+
+theorem retNil_of_sim {pj pj' : PJ} {i : Iter} {o : Out} {r : Res (PJ × Iter)} (hs : SimSet pj i o r)
+    (hr : fstR r = .ok pj') : retNil pj o = some pj' := by
+  cases r with
+  | ok x =>
+    obtain ⟨pj1, i1⟩ := x
+    simp only [fstR, Res.ok.injEq] at hr
+    subst hr
+    obtain ⟨s, ho, ht, hstr, _, hm⟩ := hs
+    subst ho
+    simp only [retNil, hstr]
+    cases pj1
+    simp only at ht hm
+    subst ht hm
+    rfl
+  | error e => cases hr
+  | panic => cases hr
+  | diverge => cases hr
+
+theorem payload_lt56 (w : UInt64) : (payloadOf w).toNat < 2 ^ 56 := by
+  have h : (payloadOf w).toNat ≤ wJSONVALUEMASK.toNat := by
+    unfold payloadOf
+    rw [UInt64.toNat_and]
+    exact Nat.and_le_right
+  have h2 : wJSONVALUEMASK.toNat < 2 ^ 56 := by decide
+  omega
+
+/-- a node whose tag is in `SetNull`'s container clause is a container: the payload of its first word is its end -/
+theorem container_payload (pj : PJ) (n : LVal) (hn : Ok pj n) (h2 : inCase (caseOf swSetNull 2) (tagOfL n) = true) :
+    ∃ w, word pj n.pos = some w ∧ (payloadOf w).toNat = n.fin := by
+  rcases node_kinds pj n hn with ⟨k0, _⟩ | ⟨_, k1, _⟩ | ⟨_, _, _, _, h⟩
+  · exfalso
+    have e6 : caseOf swSetNull 0 = [116, 102, 110] := rfl
+    have e8 : caseOf swSetNull 2 = [123, 91, 114] := rfl
+    rw [e6] at k0; rw [e8] at h2
+    simp only [inCase] at k0 h2
+    generalize (tagOfL n).toNat = t at k0 h2
+    simp only [List.contains_eq_mem, List.mem_cons, List.not_mem_nil, or_false, decide_eq_true_eq] at k0 h2
+    omega
+  · exfalso
+    have e7 : caseOf swSetNull 1 = [34, 100, 108, 117] := rfl
+    have e8 : caseOf swSetNull 2 = [123, 91, 114] := rfl
+    rw [e7] at k1; rw [e8] at h2
+    simp only [inCase] at k1 h2
+    generalize (tagOfL n).toNat = t at k1 h2
+    simp only [List.contains_eq_mem, List.mem_cons, List.not_mem_nil, or_false, decide_eq_true_eq] at k1 h2
+    omega
+  · exact h
+
+/-- **One valid call, source = model.**  On a tape holding the located document `v`, a call valid in `v` returns `nil` when
+    run on the source, and leaves exactly the tape and string buffer the model's function leaves. -/
+theorem srcStep_valid (fuel : Nat) (pj : PJ) (v : LVal) (op : EOp) (hok : Ok pj v) (hv : Valid pj v op)
+    (hf : pj.tape.size + 2 ≤ fuel) :
+    ∃ pj', srcStep fuel pj op = some pj' ∧ applyOp pj op = .ok pj' := by
+  obtain ⟨pj', happ, _⟩ := step pj v op hok hv
+  refine ⟨pj', ?_, happ⟩
+  have hl : (iterOn pj op.pos).lim ≤ pj.tape.size := by rw [iterOn_lim]; exact Nat.le_refl _
+  have htie := C13_set_follows_source pj (iterOn pj op.pos) hl fuel
+  unfold applyOp at happ
+  cases op with
+  | setInt q z => exact retNil_of_sim (htie.2.1 z) happ
+  | setUInt q w => exact retNil_of_sim (htie.2.2.1 w) happ
+  | setFloat q b => exact retNil_of_sim (htie.1 b) happ
+  | setBool q b => exact retNil_of_sim (htie.2.2.2.2.1 b) happ
+  | setString q s => exact retNil_of_sim (htie.2.2.2.1 s) happ
+  | setNull q =>
+    obtain ⟨⟨e, hnode⟩, _, _⟩ := hv
+    simp only [EOp.pos] at hnode hl
+    obtain ⟨n, w, hn, hp, hfin, hw, _, hoff, ht, hcur⟩ := valid_node pj v hok q e hnode
+    have hsz := node_in_tape pj q e v hok hnode
+    have h56 := payload_lt56 w
+    refine retNil_of_sim (setNull_sim_fuel pj (iterOn pj q) fuel hl (fun _ => by rw [hcur]; omega) (by omega)
+      (fun h2 => ?_)) happ
+    rw [ht] at h2
+    obtain ⟨w', hw', hpay⟩ := container_payload pj n hn h2
+    rw [hp] at hw'
+    cases word_inj hw hw'
+    rw [hcur, hpay, hfin, hoff]
+    omega
+
+/-- **Every valid history, source = model**: the source-side run of a `ValidSeq` returns `nil` at every step and ends with
+    exactly the tape, string buffer and message the model's fold ends with. -/
+theorem srcOps_eq_applyOps : ∀ (ops : List EOp) (pj : PJ) (v : LVal), Ok pj v → ValidSeq pj v ops →
+    ∀ (fuel : Nat), pj.tape.size + 2 ≤ fuel → ∃ pj', srcOps fuel pj ops = some pj' ∧ applyOps pj ops = .ok pj' := by
+  intro ops
+  induction ops with
+  | nil => intro pj v _ _ fuel _; exact ⟨pj, rfl, rfl⟩
+  | cons op r ih =>
+    intro pj v hok hv fuel hf
+    obtain ⟨hv1, hv2⟩ := hv
+    obtain ⟨pj1, hs, ha⟩ := srcStep_valid fuel pj v op hok hv1 hf
+    obtain ⟨pj1', ha', hok1, _, _, hsz⟩ := step pj v op hok hv1
+    rw [ha] at ha'; cases ha'
+    obtain ⟨pj', g1, g2⟩ := ih pj1 (absOp v op) hok1 (hv2 pj1 ha) fuel (by rw [hsz]; exact hf)
+    refine ⟨pj', ?_, ?_⟩
+    · simp only [srcOps, hs]; exact g1
+    · simp only [applyOps, ha, Res.bind_ok]; exact g2
+
+/-- **Any sequence of replacements, source level** (`C13_history` on the source).  `ops` is any list of `SetInt / SetUInt /
+    SetFloat / SetBool / SetNull / SetString` calls, each addressed to a tape position and valid in the document as it is
+    when the call is made (`ValidSeq`).  Running the regenerated syntax trees one after the other — each on the iterator
+    standing on the addressed word of the tape the previous run returned, with the string buffer the previous run returned —
+    every run returns `nil`, and the final tape holds the original document with exactly those replacements applied in order
+    (`absOps`: a fold of node substitutions), still tight; same `Message`, same tape length, string buffer extended by
+    exactly the bytes of the `SetString` calls.
+    Discharged from the ties: the view premise (`iterOn`'s view is the whole tape), `cur < 2^63` for `SetNull` on a
+    container (a 56-bit payload), and the fuel of `SetNull` (on a container `cur` is the end of the node, inside the tape; on
+    other tags the function does not loop — `setNull_sim_noloop`).  Remaining: the interpreter fuel `len(tape) + 2`.
+    `ValidSeq` speaks of the model's `applyOp` in its recursion ("valid in the tape the previous call produced"); the
+    version with validity on the document alone is `C13_source_history_abs`. -/
+theorem C13_source_history (ops : List EOp) (pj : PJ) (v : LVal) (hok : Ok pj v) (ht : Tight v) (hv : ValidSeq pj v ops)
+    (fuel : Nat) (hf : pj.tape.size + 2 ≤ fuel) :
+    ∃ pj', srcOps fuel pj ops = some pj' ∧ Ok pj' (absOps v ops) ∧ Tight (absOps v ops) ∧ pj'.msg = pj.msg ∧
+      pj'.tape.size = pj.tape.size ∧ pj'.strings = pj.strings ++ appendedAll ops := by
+  obtain ⟨pj', hs, ha⟩ := srcOps_eq_applyOps ops pj v hok hv fuel hf
+  obtain ⟨pj'', ha', rest⟩ := C13_history ops pj v hok ht hv
+  rw [ha] at ha'; cases ha'
+  exact ⟨pj', hs, rest⟩
+
+/-- **… with validity stated on the document alone** (`ValidSeqA`: the addressed node exists in the document reached so far
+    and has a constructor the function's gate admits; `SetString` keeps the string buffer below 2^55 bytes; `SetNull` on a
+    container needs a tape shorter than 2^56 words).  No function of the hand model occurs in this statement, premises
+    included, except the positioning `iterOn` inside `srcOps`. -/
+theorem C13_source_history_abs (ops : List EOp) (pj : PJ) (v : LVal) (hok : Ok pj v) (ht : Tight v)
+    (hv : ValidSeqA pj.strings.size pj.tape.size v ops) (fuel : Nat) (hf : pj.tape.size + 2 ≤ fuel) :
+    ∃ pj', srcOps fuel pj ops = some pj' ∧ Ok pj' (absOps v ops) ∧ Tight (absOps v ops) ∧ pj'.msg = pj.msg ∧
+      pj'.tape.size = pj.tape.size ∧ pj'.strings = pj.strings ++ appendedAll ops :=
+  C13_source_history ops pj v hok ht (validSeq_of_abs ops pj v hok hv) fuel hf
+
+open SJ.MarshalExact SJ.GoObject SJ.GoMarshal SJ.RenderParse in
+/-- **… and the source-side reader then prints exactly the edited document** (the source-level counterpart of
+    `C13_history_readback`, whose reader `owalkValue` is a walker of the model): after the source-side run of any valid
+    history, running the regenerated `Iter.MarshalJSONBuffer` on the tape and string buffer that run returned, from the
+    iterator standing on the document's first word (which has not moved), returns `dst ++` the canonical text
+    `renderJ (erase (absOps v ops))` of the edited document, and `nil`.
+    Remaining: `FloatsOk` of the edited document (a `SetFloat(NaN)` has no JSON text: `MarshalJSONBuffer` then returns an
+    error, `C10_source_marshal_error`); `msg.size < 2^63` and the final string-buffer length `< 2^63` (`BufOK`, Go `int`s);
+    interpreter fuel. -/
+theorem C13_source_history_readback (ops : List EOp) (pj : PJ) (v : LVal) (hok : Ok pj v) (ht : Tight v)
+    (hv : ValidSeq pj v ops) (hfl : FloatsOk (absOps v ops)) (hmsg : pj.msg.size < 2^63)
+    (hstr : pj.strings.size + (appendedAll ops).size < 2^63) (fuel : Nat) (hf : pj.tape.size + 2 ≤ fuel) (dst : Bytes)
+    (F : Nat) (hF : 3 * pj.tape.size + 25 ≤ F) :
+    ∃ pj', srcOps fuel pj ops = some pj' ∧
+      ∃ st, runFun goFuns goIter_MarshalJSONBuffer F ⟨initEnv pj' (iterOn pj' v.pos) dst, pj'.tape⟩ =
+          .ret st [.bytes (dst ++ renderJ (erase (absOps v ops))), .bool false] ∧ st.tape = pj'.tape := by
+  obtain ⟨pj', hs, hok', _, hm, hsz, hss⟩ := C13_source_history ops pj v hok ht hv fuel hf
+  refine ⟨pj', hs, ?_⟩
+  have hon := iterOn_onNode pj' _ hok'
+  rw [absOps_pos] at hon
+  have hb : BufOK pj' := ⟨by rw [hm]; exact hmsg, by rw [hss, Array.size_append]; exact hstr⟩
+  exact (SJ.SourceLevelA.C10_source_marshal_exact pj' (absOps v ops) (iterOn pj' v.pos) dst hok' hfl hon hb
+    (by rw [iterOn_lim]; exact Nat.le_refl _) F (by rw [iterOn_lim, hsz]; omega)).2
+
+/-- **A disallowed call, run on the source, returns an error and changes nothing** — on ANY tape (no document needed): if
+    the gate of the function refuses the tag of the addressed word, the run returns a non-nil error and the tape, the string
+    buffer and the receiver are exactly what they were.  Fuel: one unit (`SetNull` on a refused tag does not loop). -/
+theorem C13_source_refused (pj : PJ) (op : EOp) (hg : gateOf op (tagAt pj op.pos) = false) (fuel : Nat) (hf : 1 ≤ fuel) :
+    ∃ s, srcRun fuel pj op = .ret s [.bool true] ∧ s.tape = pj.tape ∧
+      s.env.get "Strings.B" = some (.bytes pj.strings) ∧ iterAt s.env "i" = some (iterOn pj op.pos) := by
+  have hl : (iterOn pj op.pos).lim ≤ pj.tape.size := by rw [iterOn_lim]; exact Nat.le_refl _
+  have hr := runOp_gate pj (iterOn pj op.pos) op (by rw [iterOn_t]; exact hg)
+  have htie := C13_set_follows_source pj (iterOn pj op.pos) hl fuel
+  cases op with
+  | setInt q z => exact SJ.SourceLevelB.set_refuse (htie.2.1 z) hr
+  | setUInt q w => exact SJ.SourceLevelB.set_refuse (htie.2.2.1 w) hr
+  | setFloat q b => exact SJ.SourceLevelB.set_refuse (htie.1 b) hr
+  | setBool q b => exact SJ.SourceLevelB.set_refuse (htie.2.2.2.2.1 b) hr
+  | setString q s => exact SJ.SourceLevelB.set_refuse (htie.2.2.2.1 s) hr
+  | setNull q =>
+    have h2 : inCase (caseOf swSetNull 2) (iterOn pj q).t = false := by
+      rw [iterOn_t]
+      simp only [gateOf, EOp.pos, Bool.or_eq_false_iff] at hg
+      exact hg.2
+    exact SJ.SourceLevelB.set_refuse (setNull_sim_noloop pj (iterOn pj q) fuel hl h2 hf) hr
+
+/-- **… at any point of a source-side history** (`C13_history_refused` on the source): after the source-side run of a valid
+    history, a call whose gate refuses the tag it finds returns a non-nil error, and the tape and string buffer reached so
+    far are untouched — they still hold the document reached so far. -/
+theorem C13_source_history_refused (ops : List EOp) (pj : PJ) (v : LVal) (hok : Ok pj v) (ht : Tight v)
+    (hv : ValidSeq pj v ops) (fuel : Nat) (hf : pj.tape.size + 2 ≤ fuel) (op : EOp)
+    (hg : ∀ pjm, srcOps fuel pj ops = some pjm → gateOf op (tagAt pjm op.pos) = false) :
+    ∃ pjm, srcOps fuel pj ops = some pjm ∧ Ok pjm (absOps v ops) ∧ Tight (absOps v ops) ∧
+      (∃ s, srcRun fuel pjm op = .ret s [.bool true] ∧ s.tape = pjm.tape ∧
+        s.env.get "Strings.B" = some (.bytes pjm.strings)) ∧
+      srcOps fuel pj (ops ++ [op]) = none := by
+  obtain ⟨pjm, hs, hokm, htm, _⟩ := C13_source_history ops pj v hok ht hv fuel hf
+  obtain ⟨s, hrun, h1, h2, _⟩ := C13_source_refused pjm op (hg pjm hs) fuel (by omega)
+  refine ⟨pjm, hs, hokm, htm, ⟨s, hrun, h1, h2⟩, ?_⟩
+  have happ : ∀ (l : List EOp) (a : PJ), srcOps fuel a l = some pjm → srcOps fuel a (l ++ [op]) = none := by
+    intro l
+    induction l with
+    | nil =>
+      intro a h
+      simp only [srcOps, Option.some.injEq] at h
+      subst h
+      simp only [List.nil_append, srcOps, srcStep, hrun, retNil]
+    | cons x r ih =>
+      intro a h
+      simp only [List.cons_append, srcOps] at h ⊢
+      cases hx : srcStep fuel a x with
+      | none => rfl
+      | some a' => rw [hx] at h; exact ih a' h
+  exact happ ops pj hs
+
+/-- The premises of `C13_source_history` are satisfiable: the four-step history of `EditHistory` (`SetString`, `SetNull` on
+    a container, `SetBool`, `SetInt` on the document `exDoc`), run on the source, ends in a tape holding `exDoc'`. -/
+example : ∃ pj', srcOps 100 exPJ exOps = some pj' ∧ Ok pj' exDoc' ∧ pj'.tape.size = exPJ.tape.size := by
+  obtain ⟨pj', h1, h2, _, _, h5, _⟩ := C13_source_history exOps exPJ exDoc exOk exTight exValid 100 (by decide)
+  rw [exAbs] at h2
+  exact ⟨pj', h1, h2, h5⟩
+
+end C13hist
+
+/-! ## C14 — histories of deletions and replacements, run on the source -/
+
+section C14hist
+open SJ.EditHistory SJ.WalkLayout SJ.DeleteDoc SJ.GoDelete SJ.GoObject SJ.GoApi SJ.SourceLevelB
+
+/-- what the caller has after `i.Array(nil)` / `i.Object(nil)` returned `(dst, nil)`: the tape and the view `*dst` -/
+def retView : Out → Option (Array UInt64 × View)
+  | .ret s [.bool true, .bool false] =>
+    match viewAt s.env "dst" with
+    | some a => some (s.tape, a)
+    | none => none
+  | _ => none
+
+/-- **One call of the editing API, run on the source**, on the tape `pj.tape` / string buffer `pj.strings`:
+    * a `Set*` call: `srcStep`;
+    * `deleteArr q pred`: the regenerated `Iter.Array` is run on the iterator standing on the word at `q` (`iterOn`), `dst`
+      nil; on the view it returns, and the tape it leaves, the regenerated `Array.DeleteElems` is run with the callback
+      answers `pred 0, pred 1, …` queued (`len(tape)` of them, more than the callback can be called);
+    * `deleteObj q pred onlyKeys`: the same with `Iter.Object` and `Object.DeleteElems(fn, onlyKeys)`, `fn ≠ nil`.  The
+      interpreter's callback answers from a queue and does not see the key; the queue that a key-dependent `pred` produces
+      is computed from the object `ms` the document `v` has at `q` (`cbAnswers pred onlyKeys ms`: the `n`-th call is made for
+      the `n`-th member that passes the key filter) — this is the only use of `v`.
+    `none` unless every run returned without error. -/
+def srcDStep (fuel : Nat) (pj : PJ) (v : LVal) : DOp → Option PJ
+  | .edit op => srcStep fuel pj op
+  | .deleteArr q pred =>
+    match retView (runFun goFuns goIter_Array fuel ⟨viewStore (iterOn pj q) { lim := 0, off := 0 } true, pj.tape⟩) with
+    | some (tape1, a) =>
+      match runFun goFuns goArray_DeleteElems fuel
+          ⟨arrStore pj a [("fn.results", .bools (answers pj.tape.size pred)), ("fn.log", .ints [])], tape1⟩ with
+      | .ret s [] => some { tape := s.tape, strings := pj.strings, msg := pj.msg }
+      | _ => none
+    | none => none
+  | .deleteObj q pred ks =>
+    match findV q v with
+    | some (.obj _ _ ms) =>
+      match retView (runFun goFuns goIter_Object fuel ⟨viewStore (iterOn pj q) { lim := 0, off := 0 } true, pj.tape⟩) with
+      | some (tape1, o) =>
+        match runFun goFuns goObject_DeleteElems fuel
+            ⟨objStore pj o ks [("fn==nil", .bool false),
+              ("fn.results", .bools (answers pj.tape.size (cbAnswers pred ks ms))), ("fn.log", .ints [])], tape1⟩ with
+        | .ret s [.bool false] => some { tape := s.tape, strings := pj.strings, msg := pj.msg }
+        | _ => none
+      | none => none
+    | _ => none
+
+/-- **A sequence of deletions and replacements, run on the source**: each call on the tape and string buffer the previous
+    one returned; the located document is carried along (`absDOp`) only to compute the answer queues of key-dependent
+    callbacks. -/
+def srcDOps (fuel : Nat) : PJ → LVal → List DOp → Option PJ
+  | pj, _, [] => some pj
+  | pj, v, op :: r =>
+    match srcDStep fuel pj v op with
+    | some pj' => srcDOps fuel pj' (absDOp v op) r
+    | none => none
+
+theorem retView_of_sim {tape : Array UInt64} {e : Env} {i : Iter} {o : Out} {r : Res View} {a : View}
+    (hs : SimView tape e i o r) (hr : r = .ok a) : retView o = some (tape, a) := by
+  subst hr
+  obtain ⟨s, ho, ht, _, hv, _⟩ := hs
+  subst ho
+  simp only [retView, hv, ht]
+
+/-- **One valid call, source level**: it returns without error and the tape it leaves holds the document with exactly
+    that call's effect (`absDOp`). -/
+theorem srcDStep_valid (fuel : Nat) (pj : PJ) (v : LVal) (op : DOp) (hok : Ok pj v) (hv : ValidD pj v op)
+    (hb : BufOK pj) (hsz : pj.tape.size < 2^56) (hf : 2 * pj.tape.size + 7 ≤ fuel) :
+    ∃ pj', srcDStep fuel pj v op = some pj' ∧ Ok pj' (absDOp v op) ∧ pj'.strings = pj.strings ++ op.appended ∧
+      pj'.msg = pj.msg ∧ pj'.tape.size = pj.tape.size := by
+  cases op with
+  | edit op =>
+    obtain ⟨pj1, hs, ha⟩ := srcStep_valid fuel pj v op hok hv (by omega)
+    obtain ⟨pj1', ha', rest⟩ := step pj v op hok hv
+    rw [ha] at ha'; cases ha'
+    exact ⟨pj1, hs, rest⟩
+  | deleteArr q pred =>
+    obtain ⟨⟨p, e, es, hfind⟩, hsmall⟩ := hv
+    obtain ⟨hn, hp, hnode⟩ := find_sound pj q _ v hok hfind
+    have hp' : p = q := hp
+    subst hp'
+    have hon : OnNode pj (.arr p e es) (iterOn pj p) := iterOn_onNode pj _ hn
+    have hview : (iterOn pj p).array = .ok { lim := e, off := p + 1 } := (array_view pj p e es _ hn hon).1
+    have hrv := retView_of_sim (array_sim (iterOn pj p) true (viewStore (iterOn pj p) { lim := 0, off := 0 } true) pj.tape fuel
+      (viewStore_i _ _ _) (viewStore_nil _ _ _) (by rw [iterOn_lim]; omega)) hview
+    obtain ⟨_, hle⟩ := arr_end_le hn
+    obtain ⟨s, its, hrun, hok', hsize, _⟩ := C14_source_array_delete pj v hok p e es pred hnode hn hsmall pj.tape.size
+      (by omega) fuel (by omega)
+    refine ⟨{ tape := s.tape, strings := pj.strings, msg := pj.msg }, ?_, ?_, by simp [DOp.appended], rfl, hsize⟩
+    · simp only [srcDStep, hrv, hrun]
+    · simp only [absDOp, hfind]
+      exact hok'
+  | deleteObj q pred ks =>
+    obtain ⟨⟨p, e, ms, hfind⟩, hsmall⟩ := hv
+    obtain ⟨hn, hp, hnode⟩ := find_sound pj q _ v hok hfind
+    have hp' : p = q := hp
+    subst hp'
+    have hon : OnNode pj (.obj p e ms) (iterOn pj p) := iterOn_onNode pj _ hn
+    have hview : (iterOn pj p).object = .ok { lim := e, off := p + 1 } := (object_view pj p e ms _ hn hon).1
+    obtain ⟨hpe, hle⟩ := obj_end_le hn
+    have hrv := retView_of_sim (object_sim (iterOn pj p) true (viewStore (iterOn pj p) { lim := 0, off := 0 } true) pj.tape fuel
+      (viewStore_i _ _ _) (viewStore_nil _ _ _) (by rw [iterOn_lim]; omega) (by rw [iterOn_off]; omega)) hview
+    obtain ⟨s, cbs, hrun, hok', hsize, _⟩ := C14_source_object_delete_pred pj v hok p e ms pred ks hnode hn hsmall hb
+      pj.tape.size (by omega) fuel (by omega)
+    refine ⟨{ tape := s.tape, strings := pj.strings, msg := pj.msg }, ?_, ?_, by simp [DOp.appended], rfl, hsize⟩
+    · simp only [srcDStep, hfind, hrv, hrun]
+    · simp only [absDOp, hfind]
+      exact hok'
+
+/-- a valid call keeps the string buffer a Go slice -/
+theorem appended_small (ssz tsz : Nat) (v : LVal) (op : DOp) (h : ValidDA ssz tsz v op) (hs : ssz < 2^63) :
+    ssz + op.appended.size < 2^63 := by
+  cases op with
+  | edit op =>
+    cases op with
+    | setString q s =>
+      obtain ⟨n, _, _, hside⟩ := h
+      simp only [sideA] at hside
+      simp only [DOp.appended, EOp.appended]
+      omega
+    | _ => simp [DOp.appended, EOp.appended]; omega
+  | deleteArr q pred => simp [DOp.appended]; omega
+  | deleteObj q pred ks => simp [DOp.appended]; omega
+
+/-- **Histories of deletions and replacements, source level** (the statement of `C14_history`, for the source-side run).
+    `ops` is any finite sequence of `Array.DeleteElems`, `Object.DeleteElems` and `Set*` calls, each valid in the document as
+    it is when the call is made (`ValidSeqDA`, validity on the document alone: the addressed node is an array resp. an
+    object resp. a value the `Set*` gate admits).  Running the regenerated syntax trees one after the other (`srcDOps`: each
+    call positioned on, and run against, the tape and string buffer the previous call returned), every run returns without
+    error, and the final tape holds exactly `absDOps v ops` — the original document with the selected members removed and
+    the addressed values replaced, in order, survivors at their positions — and is again tight; `Message` and tape length
+    unchanged; the string buffer has grown by exactly the `SetString` arguments.
+    Route: induction over `ops` from the single-step source-level theorems (`srcStep_valid`, `C14_source_array_delete`,
+    `C14_source_object_delete_pred` of SourceLevelB — each the composition of a property theorem with a tie — and the ties
+    of `Iter.Array` / `Iter.Object`), i.e. the induction of `C14_history` redone on the source side; `C14_history` itself is
+    not used, because the source-side run of `Object.DeleteElems` with a key-dependent callback is tied to the model's run
+    with the callback `fun k _ => cbAnswers … k`, which gives the same DOCUMENT (`filterMs_congr`) but is not known to give
+    the same tape word for word.
+    Discharged: the views (`Iter.Array`/`Iter.Object` return the node's view, inside the tape), the answer counts, `BufOK`
+    along the history (`SetString` keeps the buffer below 2^55).  Remaining: `BufOK pj` at the start (Go `int` lengths;
+    needed by `Object.DeleteElems`, which compares keys through `stringByteAt`), `len(tape) < 2^56` (the tie of
+    `Iter.Array`/`Iter.Object` needs `len < 2^63`; the deletions themselves need `< 2^56` and `ValidSeqDA` says so only when
+    there is one), interpreter fuel `2·len(tape) + 7`. -/
+theorem C14_source_history : ∀ (ops : List DOp) (pj : PJ) (v : LVal), Ok pj v → Tight v →
+    ValidSeqDA pj.strings.size pj.tape.size v ops → BufOK pj → pj.tape.size < 2^56 →
+    ∀ (fuel : Nat), 2 * pj.tape.size + 7 ≤ fuel →
+    ∃ pj', srcDOps fuel pj v ops = some pj' ∧ Ok pj' (absDOps v ops) ∧ Tight (absDOps v ops) ∧ pj'.msg = pj.msg ∧
+      pj'.tape.size = pj.tape.size ∧ pj'.strings = pj.strings ++ appendedAllD ops := by
+  intro ops
+  induction ops with
+  | nil =>
+    intro pj v hok ht _ _ _ fuel _
+    exact ⟨pj, rfl, hok, ht, rfl, rfl, by simp [appendedAllD]⟩
+  | cons op r ih =>
+    intro pj v hok ht hv hb hsz fuel hf
+    obtain ⟨hv1, hv2⟩ := hv
+    have hvalid := validDA_validD pj v hok op hv1
+    obtain ⟨pj1, h1, h2, h3, h4, h5⟩ := srcDStep_valid fuel pj v op hok hvalid hb hsz hf
+    have hsmall := appended_small _ _ v op hv1 hb.2
+    obtain ⟨pj', g1, g2, g3, g4, g5, g6⟩ := ih pj1 (absDOp v op) h2 (absDOp_tight v op ht)
+      (by rw [h3, h5, Array.size_append]; exact hv2)
+      ⟨by rw [h4]; exact hb.1, by rw [h3, Array.size_append]; exact hsmall⟩ (by rw [h5]; exact hsz) fuel
+      (by rw [h5]; exact hf)
+    refine ⟨pj', ?_, g2, g3, g4.trans h4, g5.trans h5, ?_⟩
+    · simp only [srcDOps, h1]; exact g1
+    · rw [g6, h3, appendedAllD, Array.append_assoc]
+
+/-- The premises of `C14_source_history` are satisfiable: `[1,"a",{"k":true}]`, delete the middle element, `SetInt` on a
+    survivor, delete member `k` — run on the source — ends in a tape holding `[9,{}]` (`exDocD'`). -/
+example : ∃ pj', srcDOps 100 EditHistory.exPJ exDoc exDOps = some pj' ∧ Ok pj' exDocD' ∧ pj'.tape.size = EditHistory.exPJ.tape.size := by
+  obtain ⟨pj', h1, h2, _, _, h5, _⟩ := C14_source_history exDOps EditHistory.exPJ exDoc exOk exTight exValidDA
+    ⟨by decide, by decide⟩ (by decide) 100 (by decide)
+  rw [exAbsD] at h2
+  exact ⟨pj', h1, h2, h5⟩
+
+end C14hist
 
 end SJ.SourceLevelC
